@@ -161,6 +161,23 @@ func c07Run(c *core.Ctx, k c07Cfg) {
 		sess.CustomAttributes = append(sess.CustomAttributes, a)
 	}
 	if r.Intn(3) == 0 {
+		// a name that occurs twice: a second attribute with the Name and NameFormat of an earlier custom attribute, or of one
+		// of the attributes the IdP derives from the session's own fields; both must arrive, separately and in order
+		dup := saml.Attribute{Name: "uid", NameFormat: "urn:oasis:names:tc:SAML:2.0:attrname-format:basic", FriendlyName: c07Str(c)}
+		switch n := len(sess.CustomAttributes); {
+		case n > 0 && r.Intn(3) != 0:
+			o := sess.CustomAttributes[r.Intn(n)]
+			dup.Name, dup.NameFormat = o.Name, o.NameFormat
+		case r.Intn(2) == 0:
+			dup.Name, dup.NameFormat = "urn:oid:0.9.2342.19200300.100.1.3", "urn:oasis:names:tc:SAML:2.0:attrname-format:uri"
+		}
+		for j := 1 + r.Intn(2); j > 0; j-- {
+			dup.Values = append(dup.Values, saml.AttributeValue{Type: "xs:string", Value: c07Str(c)})
+		}
+		sess.CustomAttributes = append(sess.CustomAttributes, dup)
+		c.Count("sessions_with_repeated_attribute_name")
+	}
+	if r.Intn(3) == 0 {
 		sess.NameIDFormat = string(saml.PersistentNameIDFormat)
 	}
 	w.Session = sess
